@@ -106,7 +106,7 @@ class Tables:
 _CACHE = {}
 
 
-def model_parse_many(docstrings, fn='parse', max_rounds=60):
+def model_parse_many(docstrings, fn='parse', max_rounds=600):
     """runs the model on every docstring, answering NEED queries from the reference oracles
     (per-docstring tables, re-run until no query is open).  Returns decoded results."""
     tabs = [Tables() for _ in docstrings]
